@@ -2,7 +2,7 @@
   Driver — the model behind a one-line-in, one-line-out protocol.  `driver` reads operations from
   stdin, one per line, `<domain> <op> <args…>`, and prints one canonical answer line per operation.
   Imports the executable model only (no Mathlib), so it links as a native executable.
-  Domains: tab, bits, shp, env, srch, norm, gen, rgt, store (one module ICG/Driver/<Domain>.lean each).
+  Domains: tab, bits, shp, env, srch, norm, gen, rgt, store, codec, mul (one module ICG/Driver/<Domain>.lean each).
 -/
 import ICG.Driver.Tab
 import ICG.Driver.Bits
@@ -13,6 +13,8 @@ import ICG.Driver.Norm
 import ICG.Driver.Gen
 import ICG.Driver.Rgt
 import ICG.Driver.Store
+import ICG.Driver.Codec
+import ICG.Driver.Mul
 
 open ICG ICG.Proto
 
@@ -26,6 +28,8 @@ structure DS where
   gen : ICG.Driver.Gen.State := ICG.Driver.Gen.init
   rgt : ICG.Driver.Rgt.State := ICG.Driver.Rgt.init
   store : ICG.Driver.Store.State := ICG.Driver.Store.init
+  codec : ICG.Driver.Codec.State := ICG.Driver.Codec.init
+  mul : ICG.Driver.Mul.State := ICG.Driver.Mul.init
 
 def stepLine (s : DS) (line : String) : DS × String :=
   match words line with
@@ -38,6 +42,8 @@ def stepLine (s : DS) (line : String) : DS × String :=
   | "gen" :: rest => let (t, out) := ICG.Driver.Gen.handle s.gen rest; ({ s with gen := t }, out)
   | "rgt" :: rest => let (t, out) := ICG.Driver.Rgt.handle s.rgt rest; ({ s with rgt := t }, out)
   | "store" :: rest => let (t, out) := ICG.Driver.Store.handle s.store rest; ({ s with store := t }, out)
+  | "codec" :: rest => let (t, out) := ICG.Driver.Codec.handle s.codec rest; ({ s with codec := t }, out)
+  | "mul" :: rest => let (t, out) := ICG.Driver.Mul.handle s.mul rest; ({ s with mul := t }, out)
   | _ => (s, "bad-op")
 
 partial def loop (h : IO.FS.Stream) (out : IO.FS.Stream) (s : DS) : IO Unit := do
